@@ -444,7 +444,7 @@ func init() { Registry["C05"] = checkC05 }
 
 func checkC05(c *Ctx) (string, bool, []string) {
 	r := c.R
-	rule := "every ordered pair of lexeme spellings (all keywords, operators, punctuation, identifiers, strings, numbers, durations, parameters, comments, unterminated and bad-escape forms, illegal and multi-byte characters, regexes via ScanRegex) x 11 separators, at offset 0, mid-text and at EOF; random texts of 1-40 lexemes; multi-line statements with one unexpected token, and generated statements of all kinds with one token replaced by an illegal character, for ParseError.Pos. Non-trivial = text has >=2 lexemes; distinct by text."
+	rule := "every ordered pair of lexeme spellings (all keywords, operators, punctuation, identifiers, strings, numbers, durations, parameters, comments, unterminated and bad-escape forms, illegal and multi-byte characters, regexes via ScanRegex) x 11 separators, at offset 0, mid-text and at EOF; random texts of 1-40 lexemes; texts of 0.5-16 KB in which a CRLF, CR, LF or multi-byte character starts at every byte offset within 4 of 512, 1024, 4096, 8192 and 16384, behind six kinds of filler (blanks, short words, one long comment / string / identifier, multi-byte words); multi-line statements with one unexpected token, and generated statements of all kinds with one token replaced by an illegal character, for ParseError.Pos. Non-trivial = text has >=2 lexemes; distinct by text."
 	assume := []string{"NUL is outside the domain (rune 0 is the scanner's in-band EOF marker)", "extents come from the verif hook counter VerifConsumed(), not from reported positions"}
 	lex := c05Lexemes()
 	if c.Replay != nil {
@@ -518,6 +518,55 @@ func checkC05(c *Ctx) (string, bool, []string) {
 		c05Scan(c, b.String(), ra, local)
 		r.DistinctStr(b.String())
 		local["random-texts"]++
+		r.MergeCounts(local)
+	})
+	// long texts: a line break, a multi-byte character or a token boundary at
+	// and around the byte offsets where an input buffer is refilled
+	type lt struct {
+		b, d, fill, brk int
+	}
+	var lts []lt
+	for _, b := range []int{512, 1024, 4096, 8192, 16384} {
+		for d := -4; d <= 4; d++ {
+			for fill := 0; fill < 6; fill++ {
+				for brk := 0; brk < 4; brk++ {
+					lts = append(lts, lt{b, d, fill, brk})
+				}
+			}
+		}
+	}
+	mon.Parallel(len(lts), c.Workers, func(i int) {
+		local := map[string]int64{}
+		x := lts[i]
+		n := x.b + x.d // byte offset at which the break starts
+		var sb strings.Builder
+		sb.WriteString("SELECT a\n")
+		rest := n - sb.Len()
+		switch x.fill {
+		case 0:
+			sb.WriteString(strings.Repeat(" ", rest))
+		case 1:
+			for sb.Len()+3 <= n {
+				sb.WriteString("ab ")
+			}
+			sb.WriteString(strings.Repeat(" ", n-sb.Len()))
+		case 2:
+			sb.WriteString("/*" + strings.Repeat("c", rest-4) + "*/")
+		case 3:
+			sb.WriteString("'" + strings.Repeat("s", rest-2) + "'")
+		case 4:
+			sb.WriteString(strings.Repeat("i", rest))
+		default:
+			for sb.Len()+3 <= n {
+				sb.WriteString("é ")
+			}
+			sb.WriteString(strings.Repeat(" ", n-sb.Len()))
+		}
+		sb.WriteString([]string{"\r\n", "\r", "\n", "é"}[x.brk])
+		sb.WriteString("FROM m\r\nWHERE x = 'é' \r\n AND ?")
+		c05Scan(c, sb.String(), nil, local)
+		r.DistinctStr(fmt.Sprintf("long|%d|%d|%d|%d", x.b, x.d, x.fill, x.brk))
+		local["long-texts"]++
 		r.MergeCounts(local)
 	})
 	// ParseError.Pos
